@@ -10,6 +10,11 @@ checks = {
    technique="custom AST/type-resolved lint: representation-invariant writer shapes + sign analysis (go/packages, go/types)",
    design="§3.C19"),
 }
+checks["C18"]=dict(
+   text="Necessary structural conditions for faithful, independent copies, decided exhaustively over every DeepCopy method of cog: field coverage (each declared field produced from the same source field), alias freedom (reference-bearing fields produced only by copying producers), no in-place store through shared `any` payloads anywhere in cog, and Passes.Process working on the copy only.",
+   note="Trusted: go/types field lists; the producer idiom table in c18.go (DeepCopy call, &fresh local, make+loop, append onto fresh storage, tools.Map / orderedmap.Map.Map with copying mapper). nil-vs-empty differences are not considered a difference. Syntactic access paths, not a points-to analysis (none available offline).",
+   technique="custom type-resolved lint: struct field coverage + alias-freedom producer grammar over DeepCopy methods; payload-mutation scan",
+   design="§3.C18")
 pending = {}
 props = [json.loads(l) for l in open(os.path.join(here, "properties.jsonl"))]
 m = {
